@@ -76,7 +76,11 @@ def run(ctx: Ctx) -> None:
         if hidx == 2:
             # two unrelated modules whose names are in prefix relation (m1 / m10), a third one importing the longer name first
             n, shape, imps = 3, 'prefix-pair', {0: [], 1: [], 2: [1, 0]}
-        enabled = rnd.random() < .8 or hidx <= 2
+        if hidx == 3:
+            # caching is switched off and on again over one cache directory
+            n, shape, imps = 2, 'chain', {0: [], 1: [0]}
+        enabled = rnd.random() < .8 or hidx <= 3
+        enabled0 = enabled
         proj_dir = os.path.join(root, 'c05_%d' % hidx)
         p = cli.Project(proj_dir, output_dirs=['./out'], cache_enabled=enabled)
         variant = {i: 0 for i in range(n)}
@@ -86,13 +90,15 @@ def run(ctx: Ctx) -> None:
         edited = set()
         nontrivial = False
         # fixed histories first: the 3-chain edit, and two runs in a row (the second one restores every table from the cache)
-        steps = [('run',), ('edit', 0), ('run',)] if hidx == 0 else [('run',), ('run',), ('edit', 1), ('run',)] if hidx == 1 else [('run',), ('edit', 1), ('run',), ('edit', 0), ('run',)] if hidx == 2 else None
+        if hidx == 3:
+            n, shape, imps = 2, 'chain', {0: [], 1: [0]}
+        steps = [('run',), ('toggle',), ('run',), ('edit', 0), ('run',), ('toggle',), ('run',)] if hidx == 3 else [('run',), ('edit', 0), ('run',)] if hidx == 0 else [('run',), ('run',), ('edit', 1), ('run',)] if hidx == 1 else [('run',), ('edit', 1), ('run',), ('edit', 0), ('run',)] if hidx == 2 else None
         for step in range(len(steps) if steps else rnd.randint(2, 5)):
             if steps:
                 op = steps[step]
             else:
                 k = rnd.random()
-                op = ('edit', rnd.randrange(n)) if k < .4 else (('clear',) if k < .5 else ('run',))
+                op = ('edit', rnd.randrange(n)) if k < .4 else (('clear',) if k < .5 else (('toggle',) if k < .6 else ('run',)))
             if op[0] == 'edit':
                 m = op[1]
                 variant[m] = (variant[m] + rnd.randint(1, len(TYPES) - 1)) % len(TYPES)
@@ -101,6 +107,11 @@ def run(ctx: Ctx) -> None:
                 hist.append(('edit', m, variant[m], step))
                 ops_model.append('(Edit nat %d %d)' % (m, variant[m]))
                 edited.add(m)
+            elif op[0] == 'toggle':
+                enabled = not enabled
+                p.cache_enabled = enabled
+                p.write_config()
+                hist.append(('toggle', enabled))
             elif op[0] == 'clear':
                 shutil.rmtree(os.path.join(proj_dir, '.cache'), ignore_errors=True)
                 hist.append(('clear',))
@@ -140,9 +151,9 @@ def run(ctx: Ctx) -> None:
                     dist = [distance(imps, m, e) for m in ms for e in edited if distance(imps, m, e)]
                     sig = 'symbol-cache-stale-transitive' if dist and min(dist) >= 2 else 'warm-differs-from-cold'
                     ctx.violation(sig, 'the output obtained with the left-over caches differs from the output with an empty cache directory (%s)' % sig,
-                                  dict(history=hist, graph=imps, cache_enabled=enabled, oracle_result={f: cold[f][-160:] for f in bad}, impl_result={f: warm.get(f, '')[-160:] for f in bad}))
+                                  dict(history=hist, graph=imps, cache_enabled=enabled0, oracle_result={f: cold[f][-160:] for f in bad}, impl_result={f: warm.get(f, '')[-160:] for f in bad}))
                 if not enabled and (touched or after != before):
-                    ctx.violation('disabled-cache-io', 'with caching disabled a cache file was read or written', dict(history=hist, graph=imps, impl_result=dict(touched=touched[:10], new_files=sorted(set(after.values()) - set(before.values())))))
+                    ctx.violation('disabled-cache-io', 'with caching disabled a cache file was read or written', dict(history=hist, graph=imps, cache_enabled=enabled0, impl_result=dict(touched=touched[:10], new_files=sorted(set(after.values()) - set(before.values())))))
                 # observation for the correspondence: which (module, kind) entries were created or replaced by this run
                 changed = sorted((MODS.index(m), kind) for (m, kind), fn in after.items() if before.get((m, kind)) != fn)
                 obs_impl.append(changed)
@@ -215,8 +226,25 @@ def replay(ctx: Ctx, data: dict) -> int:
             p.edit(mod(op[1]), module_src(op[1], imps[op[1]], op[2], 0), step=op[3] if len(op) > 3 else None)
         elif op[0] == 'clear':
             shutil.rmtree(os.path.join(proj_dir, '.cache'), ignore_errors=True)
+        elif op[0] == 'toggle':
+            p.cache_enabled = op[1]
+            p.write_config()
         else:
-            p.run(force=True)
+            touched = []
+            real_open = builtins.open
+
+            def spy_open(file, *a, **k):
+                if '.cache' in os.path.abspath(str(file)):
+                    touched.append(os.path.basename(str(file)))
+                return real_open(file, *a, **k)
+            builtins.open = spy_open
+            try:
+                p.run(force=True)
+            finally:
+                builtins.open = real_open
+            if not p.cache_enabled and touched:
+                print('REPRODUCED: with caching disabled the run opened', touched[:5])
+                return 1
             warm = snapshot_outputs(p)
             _, cold = cold_outputs(cli, p, n)
     bad = [f for f in (cold or {}) if warm.get(f) != cold[f]]
